@@ -134,28 +134,35 @@ structure PlainQuery where
 def projectRow (sel : List SelItem) (row : Row) : Except Err Row :=
   sel.mapM (fun it => it.expr.eval row)
 
-/-- the materialised non-aggregate pipeline after WHERE (nonagg/materialized.rs):
-sort → project → DISTINCT → LIMIT/OFFSET.  Returns the output rows and, for each output row
-position of the *sorted* sequence before DISTINCT/LIMIT, nothing else: keys are re-derivable
-from the output when the select list contains them. -/
-def runPlain (q : PlainQuery) (rows : List Row) : Except Err (List Row) := do
+/-- the materialised non-aggregate pipeline after WHERE (nonagg/materialized.rs), up to
+LIMIT/OFFSET: sort → project → DISTINCT -/
+def plainOrdered (q : PlainQuery) (rows : List Row) : Except Err (List Row) := do
   let keys ← q.order.mapM (fun od => do
     let e ← resolveOrderExpr q.cols q.sel od.1
     pure (e, od.2))
   let sorted ← if keys.isEmpty then pure (rows.map (fun r => (r, ([] : SortKey)))) else orderByRows keys rows
   let projected ← sorted.mapM (fun rk => projectRow q.sel rk.1)
-  let d := if q.distinct then applyDistinct projected else projected
+  pure (if q.distinct then applyDistinct projected else projected)
+
+/-- … followed by LIMIT/OFFSET -/
+def runPlain (q : PlainQuery) (rows : List Row) : Except Err (List Row) := do
+  let d ← plainOrdered q rows
   pure (applyLimitOffset d q.limit q.offset)
 
 /-- ORDER BY over already computed result rows (aggregate results, set-operation results):
 keys are output columns given by position (`apply_order_by_to_aggregates` after name/position
-resolution), then DISTINCT (aggregates only), then LIMIT/OFFSET -/
-def runOnResult (order : List (Nat × Dir)) (distinct : Bool) (limit offset : Option Nat)
-    (rows : List Row) : Except Err (List Row) := do
+resolution), then DISTINCT (aggregates only) -/
+def resultOrdered (order : List (Nat × Dir)) (distinct : Bool) (rows : List Row) :
+    Except Err (List Row) := do
   let sorted ← if order.isEmpty then pure (rows.map (fun r => (r, ([] : SortKey))))
     else orderByRows (order.map (fun od => (Expr.col od.1, od.2))) rows
   let out := sorted.map (·.1)
-  let d := if distinct then applyDistinct out else out
+  pure (if distinct then applyDistinct out else out)
+
+/-- … followed by LIMIT/OFFSET (for set operations: after the operation and the sort) -/
+def runOnResult (order : List (Nat × Dir)) (distinct : Bool) (limit offset : Option Nat)
+    (rows : List Row) : Except Err (List Row) := do
+  let d ← resultOrdered order distinct rows
   pure (applyLimitOffset d limit offset)
 
 /-! typing of sort keys: the hypothesis under which the comparison is a total preorder -/
